@@ -1122,6 +1122,19 @@ class Interp:
             idx = self.eval(e.slice)
             if isinstance(base, list) and isinstance(idx, list) and idx and all(isinstance(b, bool) for b in idx):
                 return [x for x, b in zip(base, idx) if b]
+            if isinstance(base, list) and isinstance(idx, list) and self.externals.get("__elementwise__"):
+                # numpy integer-array indexing x[index_tensor]: the result has the index tensor's shape
+                def take(ix):
+                    if isinstance(ix, list):
+                        return type(idx)([take(j) for j in ix]) if type(idx).__name__ == "T" else [take(j) for j in ix]
+                    p_ = to_poly(ix)
+                    if not (p_.is_const() and p_.const_value().denominator == 1):
+                        raise Undecided("index tensor with a symbolic entry")
+                    j_ = int(p_.const_value())
+                    if not -len(base) <= j_ < len(base):
+                        raise FragmentFault(f"index {j_} out of range for a tensor of length {len(base)}")
+                    return base[j_]
+                return take(idx)
             if isinstance(base, (list, tuple)) and isinstance(idx, Obj) and idx.name == "slice" and "stop" in idx.attrs:
                 g_ = lambda x: None if x is None else int(to_poly(x).const_value())
                 r_ = list(base[slice(g_(idx.attrs.get("start")), g_(idx.attrs.get("stop")), g_(idx.attrs.get("step")))])
